@@ -25,7 +25,9 @@ STRINGS = ["'abc'", "''", "'a b'", '"wide"', '""', "'é'", "'日本語'", "'$N'"
 COMMENTS = ['(* c *)', '(**)', '(* ( *)', '(* a * b *)', '(* line1\nline2 *)', '(* é ü *)', '(* 日本 *)', '(* a\r\nb\r\nc *)',
             '(* x *) (* y *)', '// c style\n', '// é\r\n', '(* tab\tin *)', '(* **)*)', '(*\n*)', '(* \f *)',
             # comments that end in several asterisks (the closing `)` after an even / odd number of `*`)
-            '(** d **)', '(* e ***)', '(* f **)', '(****)', '(***)', '(** g\nh **)']
+            '(** d **)', '(* e ***)', '(* f **)', '(****)', '(***)', '(** g\nh **)',
+            # braces inside comments (pragma-like text is text there)
+            '(* { *)', '(* } *)', '(* {x *)', '(* a } b { c *)']
 ADDRESSES = ['%IX1', '%QW2', '%MD3', '%I*', '%Q*', '%ix1', '%IX1.2', '%MB0.0.1']
 WS = [' ', '  ', '\t', ' \t ', '\n', '\r\n', '\n\n', ' \n ', '\r\n\r\n', '\n\t']
 ERRCHARS = ['?', '$', '@', '!', '~', '`', '\\', 'é', 'ß', '日', '\r', '€', '%', '|', '&&', '^', '\x00', '\x7f']
